@@ -10,6 +10,8 @@ C14.a  no batch-global operation (reduction over the batch axis / without dim, r
        operand is a row-uniform env key (first-step shortcut) or a named, reasoned exception
 C14.b  no dimension-less .squeeze() on a value that reaches a rank-sensitive consumer or is
        returned by an embedding forward: at batch size 1 the batch axis disappears
+C14.e  replica layout (shared with C12.a): k-fold expansions / einops groupings keep the batch index minor, so a replicated
+       row never meets another instance's embeddings
 C14.c  Normalization: 'layer' reduces over the non-batch axes only; 'batch'/'instance' delegate to
        torch.nn BatchNorm1d / InstanceNorm1d (eval-mode batch norm uses running statistics --
        trusted torch semantics)
@@ -40,6 +42,12 @@ SCOPE = ("rl4co.models.nn.env_embeddings", "rl4co.models.nn.attention", "rl4co.m
          "rl4co.models.nn.mlp", "rl4co.models.zoo.am", "rl4co.models.zoo.ptrnet", "rl4co.models.zoo.matnet", "rl4co.models.zoo.ham", "rl4co.models.zoo.mdam",
          "rl4co.models.zoo.polynet", "rl4co.models.zoo.l2d", "rl4co.models.common.constructive.autoregressive")
 
+HELPERS = {
+    "rl4co/utils/decoding.py": ["get_log_likelihood", "process_logits", "modify_logits_for_top_k_filtering", "modify_logits_for_top_p_filtering", "decode_logprobs",
+                                "DecodingStrategy.greedy", "DecodingStrategy.sampling", "DecodingStrategy.step"],
+    "rl4co/utils/ops.py": ["calculate_entropy", "gather_by_index", "get_distance", "get_tour_length"],
+}
+
 EXCEPTIONS = {
     ("MDAMDecoder.forward", "reduce-all", "torch.stack(kl_divergences, 0).mean()"):
         "auxiliary training loss (mean KL divergence between decoders) returned next to the rollout outputs; it is not used to choose actions",
@@ -59,6 +67,7 @@ def run(ctx: Ctx):
     tf = tuple_funcs(ctx.repo)
     n_forward, n_hits = 0, 0
     used = set()
+    roots = []
     for name, mi in sorted(ctx.repo.modules.items()):
         if not in_scope(name):
             continue
@@ -66,15 +75,35 @@ def run(ctx: Ctx):
             fi = ctx.repo.resolve_method(c, "forward")
             if fi is None:
                 continue
+            roots.append((mi, cn, c, fi))
+    # shared helpers on every policy's inference path (log-likelihood, logit processing, selection, entropy)
+    n_helpers = 0
+    for rel, names in HELPERS.items():
+        mi = ctx.repo.module_by_path(rel)
+        for nm in names:
+            if "." in nm:
+                c = mi.classes.get(nm.split(".")[0])
+                fi = c.methods.get(nm.split(".")[1]) if c is not None else None
+            else:
+                c, fi = None, mi.functions.get(nm)
+            if fi is None:
+                raise AnalysisError(f"inference helper {rel}:{nm} not found")
+            roots.append((mi, nm if c is None else nm.rsplit(".", 1)[0], c, fi))
+            n_helpers += 1
+    ctx.extra["helpers_analysed"] = n_helpers
+    for mi, cn, c, fi in roots:
+        if True:
             ctx.repo.note(mi)
+            is_fwd = fi.name == "forward"
+            lab = f"{cn}.forward" if is_fwd else (f"{cn}.{fi.name}" if c is not None else fi.name)
             it = vg.Interp(ctx.repo, c, inline_policy=lambda f, a: True, inline_depth=5)
             try:
                 fr = it.run_function(fi)
             except RecursionError:
-                raise AnalysisError(f"{cn}.forward: analysis recursion")
+                raise AnalysisError(f"{lab}: analysis recursion")
             bad_ev = [e for e in it.events if e.kind in ("unhandled-stmt", "unhandled-expr")]
             if bad_ev:
-                raise AnalysisError(f"{cn}.forward: unhandled constructs {bad_ev[:2]}")
+                raise AnalysisError(f"{lab}: unhandled constructs {bad_ev[:2]}")
             ctx.fn(fi)
             n_forward += 1
             rets = [it.sym(v) for _, v in fr.returns]
@@ -97,34 +126,44 @@ def run(ctx: Ctx):
                         continue  # indexing the tuple returned by a module / function call
                 if h.kind == "squeeze-all":
                     from .C04 import rank_sensitive_consumer
-                    returned = any(nf.strip(r) is h.node or r is h.node for r in rets)
+                    from .C04 import value_wrappers
+                    W_ = value_wrappers(root, h.node)
+                    returned = any(nf.strip(r) is h.node or r is h.node or r.id in W_ for r in rets)
                     if not (returned or rank_sensitive_consumer(root, h.node) or _feeds_module(root, h.node)):
-                        ctx.note(f"{cn}.forward: dimension-less squeeze feeds only rank-insensitive arithmetic: {text}")
+                        ctx.note(f"{lab}: dimension-less squeeze feeds only rank-insensitive arithmetic: {text}")
                         continue
                     rule = "C14.b"
                 else:
                     rule = "C14.a"
                 deps = vg.cells_of(h.operand)
                 if h.kind in ("reduce-all", "row-pick") and deps == {"i"} and uni_i and not vg.params_of(h.operand) - {"td"}:
-                    ctx.note(f"{cn}.forward: first-step shortcut on the row-uniform key td['i'] ({text})")
+                    ctx.note(f"{lab}: first-step shortcut on the row-uniform key td['i'] ({text})")
                     continue
                 why = EXCEPTIONS.get((fn, h.kind, text))
                 if why is not None:
                     used.add((fn, h.kind, text))
-                    ctx.note(f"{cn}.forward: exception `{text}` in {fn}: {why}")
+                    ctx.note(f"{lab}: exception `{text}` in {fn}: {why}")
                     continue
                 bad += 1
-                ctx.ob(rule, f"{cn}.forward:{fn}:{h.kind}", False, where,
-                       f"{h.kind} `{text}` in {fn}: {h.why}. It reaches the output of {cn}.forward: the result for one instance depends on its batch-mates / on the batch size",
+                ctx.ob(rule, f"{lab}:{fn}:{h.kind}", False, where,
+                       f"{h.kind} `{text}` in {fn}: {h.why}. It reaches the output of {lab}: the result for one instance depends on its batch-mates / on the batch size",
                        construct=f"{fn}:{h.kind}:{text}")
             if not bad:
-                ctx.ob("C14.a", f"{cn}.forward", True, fi.loc, f"{len(per)} batch-global op(s), all justified" if per else "no batch-global op reaches the output")
+                ctx.ob("C14.a", lab, True, fi.loc, f"{len(per)} batch-global op(s), all justified" if per else "no batch-global op reaches the output")
     ctx.extra["forwards_analysed"] = n_forward
     ctx.extra["batch_global_ops_seen"] = n_hits
     ctx.extra["exceptions_used"] = sorted(map(list, used))
     ctx.sample({"forwards_analysed": n_forward, "hits": n_hits, "td_i_row_uniform": uni_i})
     normalization(ctx)
     feature_axis(ctx)
+    # replicated rows must keep their instance (shared with C12.a): a layout mismatch between the replicated state and the
+    # replicated embeddings makes an instance's result depend on its batch-mates
+    from . import C12
+    n0 = len(ctx.obligations)
+    C12.expansion_sites(ctx)
+    C12.einops_sites(ctx)
+    for o in ctx.obligations[n0:]:
+        o.rule = "C14.e"
     # positive control
     t = vg.mk("param", "x")
     if len(ba.hits(vg.mk("/", t, vg.mk("meth", t, "std")))) != 1 or ba.hits(vg.mk("meth", t, "mean", vg.const(-1))):
